@@ -9,7 +9,7 @@
 // characteristic UUID (verif_ext::notify_uuid).
 //
 // Memory safety binding (C01): every PDU is copied into a heap buffer of exactly the PDU size (the PDU ends at the end of
-// the allocation), the response buffer is a heap buffer of exactly the size announced to the server; ASan / UBSan reports
+// the allocation), the response buffer is a heap buffer of exactly the negotiated MTU (= the size announced to the server); ASan / UBSan reports
 // and signals become {"e":"Crash"} events (harness/common/trace.hpp; run with UBSAN_OPTIONS=abort_on_error=1).
 //
 // script (one command per line, integers decimal or 0x..), every command produces exactly ONE event:
@@ -95,7 +95,10 @@ static std::vector< std::uint8_t > request( int c, const std::vector< std::uint8
 {
     std::unique_ptr< std::uint8_t[] > ibuf( new std::uint8_t[ in.size() ? in.size() : 1 ] );
     std::copy( in.begin(), in.end(), ibuf.get() );
-    const std::size_t cap = server_t::maximum_channel_mtu_size;
+    // the l2cap layer offers no more than the negotiated MTU: the output buffer has exactly that size, whatever the
+    // length of the input is (input length and output capacity vary independently)
+    const std::size_t smax = server_t::maximum_channel_mtu_size;
+    const std::size_t cap  = std::min< std::size_t >( smax, fx->con[ c ].negotiated_mtu() );
     std::unique_ptr< std::uint8_t[] > obuf( new std::uint8_t[ cap ] );
     std::size_t out_size = cap;
     fx->confirming = &fx->con[ c ];
